@@ -152,8 +152,19 @@ def oracle(case, obs):
                 cls = "equals" if enc[i] == 61 else "nonprintable"
                 return Failure(case, f"xtext_encode({b!r}) = {enc!r} contains {enc[i]:#x}, not an xchar", "xtext-bytes-" + cls + "-unescaped")
         if dec != show_cps(b):
-            return Failure(case, f"xtext_decode(xtext_encode({b!r})) = {dec}, expected {show_cps(b)}",
-                           "xtext-bytes-plus-unescaped" if 43 in b else "xtext-roundtrip")
+            tag = ("xtext-roundtrip-percent-collapsed" if 43 not in enc and re.search(rb"%[0-9A-Fa-f]{2}", b)
+                   else "xtext-bytes-plus-unescaped" if 43 in b else "xtext-roundtrip")
+            return Failure(case, f"xtext_decode(xtext_encode({b!r})) = {dec}, expected {show_cps(b)}", tag)
+        return None
+    if k == "xdec":
+        b = bytes.fromhex(case["hex"])
+        # reference decoder, RFC 3461: xchar stands for itself (that includes '%', '\\', '&'), hexchar = "+" 2HEXDIG;
+        # asserted on well-formed xtext only (what int(_, 16) does with other slices is outside the property)
+        if re.fullmatch(rb"(?:[!-*,-<>-~]|\+[0-9A-F]{2})*", b):
+            want = re.sub(rb"\+([0-9A-F]{2})", lambda m: bytes([int(m.group(1), 16)]), b)
+            if obs != show_cps(want):
+                return Failure(case, f"xtext_decode({b!r}) = {obs}, RFC 3461 reading is {show_cps(want)}",
+                               "xtext-decode-percent" if b"%" in b else "xtext-decode-reference")
         return None
     if k == "uenc":
         s = case["s"]
@@ -200,6 +211,7 @@ def corpus():
     return [
         {"kind": "xenc", "hex": b"a+b".hex()},                          # F14
         {"kind": "xenc", "hex": b"e=mc2+41".hex()},
+        {"kind": "xenc", "hex": b"100%41 user%40example.com %2B".hex()},
         {"kind": "uenc", "s": "\t"},                                    # F15
         {"kind": "uenc", "s": "\n"},
         {"kind": "uenc", "s": "\té"},
@@ -226,7 +238,17 @@ def gen(rng, tier):
     for _ in range(300 if tier == "quick" else 5000):
         n = rng.randrange(0, 12)
         cases.append({"kind": "xenc", "hex": bytes(rng.choice(edge + [rng.randrange(256)]) for _ in range(n)).hex()})
-    xd = b"+0123456789ABCDEFabcdefGgz!~"
+    # escape-like triples of this codec ('+') and of other codecs (percent-encoding, quoted-printable '=XX',
+    # backslash-x) embedded in the data, hex digits of both cases and non-hex, alone and inside text
+    hexish = [b"41", b"2B", b"2b", b"3d", b"00", b"fF", b"7e", b"4", b"G1", b"1G", b"zz", b"%%", b"+4", b""]
+    for esc in (b"%", b"+", b"=", b"\\x", b"&#", b"%25", b"+2B"):
+        for h in hexish:
+            for pre, post in ((b"", b""), (b"100", b""), (b"user", b"example.com"), (b"+", b"%")):
+                cases.append({"kind": "xenc", "hex": (pre + esc + h + post).hex()})
+    for h in hexish:
+        for esc in (b"%", b"=", b"\\x"):
+            cases.append({"kind": "xdec", "hex": (b"a" + esc + h + b"b").hex()})
+    xd = b"+0123456789ABCDEFabcdefGgz!~%"
     for _ in range(200 if tier == "quick" else 3000):
         n = rng.randrange(0, 9)
         b = bytes(rng.choice(xd) for _ in range(n))
@@ -340,7 +362,8 @@ SPEC = Spec(
     shrink=shrink,
     histogram=hist,
     nontrivial=lambda c, o: c["kind"] in ("xdec", "udec") or any(x in o.split(" ")[0] for x in ("2b", "26")),
-    rule="xtext: every octet, every pair with an edge octet first (thorough: all second octets), random byte strings "
+    rule="xtext: every octet, every pair with an edge octet first (thorough: all second octets), escape-like triples of '+' '%' '=' backslash-x '&#' "
+         "with hex / non-hex pairs of both cases alone and inside text, random byte strings "
          "biased to 0 32 33 42..44 60..62 126..128 255; decode of random strings over '+', hex digits of both cases and "
          "non-hex; utf-7: every character of a 32-character pool (controls incl. TAB LF CR NUL, '&', '-', base64 "
          "specials, Latin-1, BMP edges, astral), pairs, random strings <= 9; thorough adds every code point < 0x300, "
